@@ -24,6 +24,7 @@ Oracle: the run equals the uncached run (never an escaping exception, never the 
 entry is valid afterwards (where rebuilding is possible) and a following cached run matches too."""
 
 import json
+import marshal
 import os
 import pickle
 import resource
@@ -306,7 +307,8 @@ def _fault_case(rig, entry, pre, fault):
 
 
 # ---------------------------------------------------------------------- single-bit flips
-FLIP_ALARM_S = 5
+FLIP_ALARM_S = 20
+FLIP_DEADLINE_S = 25
 FLIP_ALL_BITS_BELOW = 64  # quick tier: every bit of payload bytes < 64, then bit (i mod 8) of byte i
 
 
@@ -332,6 +334,8 @@ def _flip_child(rig, entry, bit):
         pid = os.fork()
     if pid == 0:
         try:
+            os.setpgid(0, 0)  # own process group: the parent kills the whole group on its deadline
+
             def say(d):
                 os.write(fd, (json.dumps(d) + "\n").encode())
 
@@ -342,6 +346,7 @@ def _flip_child(rig, entry, bit):
             signal.signal(signal.SIGALRM, signal.SIG_DFL)
             signal.alarm(FLIP_ALARM_S)
             cc = rig.cc
+            seen = []
 
             def wrap(name):
                 orig = getattr(cc, name, None)
@@ -360,12 +365,22 @@ def _flip_child(rig, entry, bit):
                     except Exception:  # noqa: BLE001
                         used, obj = None, "?"
                     say({"ev": "check-return", "used": used, "obj": obj})
+                    if used and obj == "code" and not seen:
+                        # undetectable damage: the verdict ("not judged") is final and there is no point
+                        # in executing bytecode with a flipped bit (hangs, interpreter crashes) - stop here
+                        os._exit(0)
+                    seen.append(1)
                     return r
 
                 setattr(cc, name, w)
 
             wrap("script_cache_check")
             wrap("code_cache_check")
+            try:  # evidence only: what does CPython's unmarshaller itself say about this flip?
+                mo = type(marshal.loads(bytes(b[h:]))).__name__
+            except BaseException as e:  # noqa: BLE001
+                mo = "raises " + type(e).__name__
+            say({"ev": "marshal", "r": mo})
             o1 = _real(rig, entry)
             say({"ev": "run1", "out": o1})
             say({"ev": "kind", "k": core.entry_kind(p)})
@@ -381,7 +396,28 @@ def _flip_child(rig, entry, bit):
         finally:
             os._exit(0)
     os.close(fd)
-    _, status = os.waitpid(pid, 0)
+    # the parent owns the deadline: SIGKILL also ends a child that got stopped (SIGTTIN/SIGTSTP) or
+    # blocked the alarm while running flipped code (only possible when the recorders found no seam)
+    deadline = time.time() + FLIP_DEADLINE_S
+    timed_out = False
+    while True:
+        wpid, status = os.waitpid(pid, os.WNOHANG)
+        if wpid == pid:
+            break
+        if time.time() > deadline:
+            timed_out = True
+            for target in (lambda: os.killpg(pid, signal.SIGKILL), lambda: os.kill(pid, signal.SIGKILL)):
+                try:
+                    target()
+                except OSError:
+                    pass
+            _, status = os.waitpid(pid, 0)
+            break
+        time.sleep(0.002)
+    try:
+        os.killpg(pid, signal.SIGKILL)  # stray grandchildren of a child that already ended
+    except OSError:
+        pass
     evs = []
     with open(side, "rb") as f:
         for ln in f.read().split(b"\n"):
@@ -390,13 +426,13 @@ def _flip_child(rig, entry, bit):
                     evs.append(json.loads(ln))
                 except ValueError:
                     pass  # a line cut short by the death of the child
-    return os.waitstatus_to_exitcode(status), evs
+    return ("timeout" if timed_out else os.waitstatus_to_exitcode(status)), evs
 
 
 def _flip_case(rig, entry, bit):
     rc, evs = _flip_child(rig, entry, bit)
     h = core.header_len(_PRISTINE[entry])
-    out = {"class": "bit-flip", "viols": [], "skipped": None, "flip": None}
+    out = {"class": "bit-flip", "viols": [], "skipped": None, "flip": None, "marshal": next((e["r"] for e in evs if e["ev"] == "marshal"), "?")}
     checks = [e for e in evs if e["ev"] in ("check-return", "check-raised")]
     first = checks[0] if checks else None
     by = {e["ev"]: e for e in evs}
@@ -407,13 +443,15 @@ def _flip_case(rig, entry, bit):
         out["viols"].append({"key": f"{clause}:{entry}:bit-flip:{sig}", "clause": clause, "case": dict(case), "observed": observed, "expected": expected})
 
     if first is not None and first["ev"] == "check-return" and first["used"] and first["obj"] == "code":
-        out["flip"] = "loaded flipped code: not judged" + (" (child died / timed out)" if rc != 0 else "")
+        out["flip"] = "loaded flipped code: not judged"
         out["skipped"] = "bit flip still unmarshals to a code object"
         return out
     if "harness-exception" in by:
         raise common.ToolError(f"flip child {entry}/{bit}: {by['harness-exception']}")
+    if "run1" not in by and first is not None:
+        raise common.ToolError(f"flip child {entry}/{bit} ended ({rc}) although the damaged entry was not handed out as code: {evs}")
     if "run1" not in by:
-        # the interpreter itself died (signal / alarm / rlimit) before the first run returned, without
+        # no recorder fired (the check functions are not where they used to be) and the interpreter died (signal / alarm / rlimit) before the first run returned, without
         # any loaded code running: nothing xonsh could guard against - counted, not judged
         out["flip"] = f"interpreter died before the run returned (exit {rc}): not judged"
         out["skipped"] = out["flip"]
@@ -431,7 +469,7 @@ def _flip_case(rig, entry, bit):
         V("damaged-entry-ignored", "escaped-" + o1["escaped"], o1, exp)
         return out
     if not core.same_outcome(o1, exp):
-        sig = "loaded-non-code-" + first["obj"] if (first is not None and first["ev"] == "check-return" and first["used"]) else _sig(o1, exp)
+        sig = "loaded-non-code-object" if (first is not None and first["ev"] == "check-return" and first["used"]) else _sig(o1, exp)
         V("damaged-entry-ignored", sig, o1, exp)
         return out
     k = by.get("kind", {}).get("k")
@@ -482,6 +520,7 @@ def run_part(ctx):
     raised = {}
     left = {}
     flips = {}
+    munm = {}
     nviol = 0
     for it, r in zip(items, res):
         ctx.add_violations(r["viols"])
@@ -494,6 +533,9 @@ def run_part(ctx):
             raised[r["faulted_run_raised"]] = raised.get(r["faulted_run_raised"], 0) + 1
         if "left" in r:
             left[r["left"]] = left.get(r["left"], 0) + 1
+        if r.get("marshal"):
+            mk = f"{it[0]}: marshal.loads {r['marshal']}"
+            munm[mk] = munm.get(mk, 0) + 1
         if r.get("flip"):
             fk = f"{it[0]}: {r['flip']}"
             flips[fk] = flips.get(fk, 0) + 1
@@ -517,6 +559,7 @@ def run_part(ctx):
             "raw_violations": nviol,
             "bit_flips": "every bit of every payload byte (both entries)" if ctx.thorough else f"every bit of payload bytes 0..{FLIP_ALL_BITS_BELOW - 1}, then bit (i mod 8) of every later byte i (both entries)",
             "bit_flip_outcomes": dict(sorted(flips.items())),
+            "bit_flip_unmarshal_results": dict(sorted(munm.items())),
             "cache_hit_observed (valid entry with tell-tale payload is executed)": _LIVE,
         },
     }
